@@ -220,11 +220,12 @@ def build_kind_family(pl, decorated):
 
     code = (_DECO if decorated else '') + (
         'class C:\n    "doc of class C"\n'
-        + d + '    def m(%s)%s:\n        pass\n' % (sep('self'), R)
-        + '    @classmethod\n' + d + '    def k(%s)%s:\n        pass\n' % (sep('cls'), R)
-        + '    @staticmethod\n' + d + '    def s(%s)%s:\n        pass\n' % (P, R)
-        + d + '    def __call__(%s)%s:\n        pass\n' % (sep('self'), R)
-        + 'class D:\n' + d + '    def __init__(%s):\n        pass\n' % sep('self')
+        + d + '    def m(%s)%s:\n        "doc of m"\n' % (sep('self'), R)
+        + '    @classmethod\n' + d + '    def k(%s)%s:\n        "doc of k"\n' % (sep('cls'), R)
+        + '    @staticmethod\n' + d + '    def s(%s)%s:\n        "doc of s"\n' % (P, R)
+        + d + '    def __call__(%s)%s:\n        "doc of call"\n' % (sep('self'), R)
+        + 'class D:\n    "doc of class D"\n'
+        + d + '    def __init__(%s):\n        "doc of init"\n' % sep('self')
         + 'c = C()\n')
     return code, KIND_MEMBERS
 
